@@ -1,6 +1,7 @@
 package main
 
 import (
+	"time"
 	"flag"
 	"fmt"
 	"os"
@@ -127,9 +128,14 @@ func cmdSweep(args []string) int {
 				<-sem
 				done <- i
 			}()
+			t0 := time.Now()
 			vc := NewVC(P, C, P.Funcs[k], VCOpts{Safety: true, Canary: true})
 			vc.Generate()
+			t1 := time.Now()
 			d.Discharge(vc)
+			if time.Since(t0) > 10*time.Second {
+				fmt.Fprintf(os.Stderr, "slow: %s gen=%.1fs solve=%.1fs obligations=%d script=%dKB\n", k, t1.Sub(t0).Seconds(), time.Since(t1).Seconds(), len(vc.sc.Obligs()), len(vc.sc.Incremental())/1024)
+			}
 			out[i] = res{key: k, vc: vc}
 		}(i, k)
 	}
